@@ -439,3 +439,126 @@ Definition flat (fs : list wframe) : list N := concat (map wire fs).
 (* the bytes connection `id` received, in arrival order *)
 Definition conn_bytes (evs : list (N * list N)) (id : N) : list N :=
   concat (map snd (filter (fun ev => fst ev =? id) evs)).
+
+(* ================================================================================================
+   Before a connection exists: commands.rs `connect_or_start_server` + client.rs `connect_with_retry`
+   ("if no server is running the client starts one and proceeds").
+
+     connect_to_server(addr)
+       Ok                                   -> use it
+       Err ConnectionRefused | TimedOut | (NotFound on a unix path)
+                                            -> run_server_process(), then by its ServerStartup report:
+            Ok { addr' }      addr' = addr  -> connect_with_retry
+                              addr' <> addr -> bail ("Listening on address .. instead of ..")
+            AddrInUse                       -> NOT an error: another client's server won the port
+                                               ("possible parallel server bootstraps, retrying..") -> connect_with_retry
+            TimedOut                        -> bail
+            Err { reason }                  -> bail
+          (run_server_process itself failing: `?`)
+       Err anything else                    -> that error
+     connect_with_retry: retry(Fixed(500ms).take(10), connect_to_server) = the first try plus one per
+     delay = at most 11 tries; ANY connect error is retried; exhausted -> TimedOut error.            *)
+
+Inductive conn_attempt := AOk | ARefused | AOtherErr.
+
+Inductive startup_report :=
+| SOk (same_addr : bool)
+| SAddrInUse
+| STimedOut
+| SErr
+| SSpawnErr.                  (* run_server_process returned Err (spawn / bind of the notify socket failed) *)
+
+Inductive start_error :=
+| EConnectFailed | EWrongAddr | EStartTimedOut | EStartFailed | ESpawnFailed | ERetryExhausted.
+
+Definition retry_budget : nat := 11.
+
+Definition attempt_ok (a : conn_attempt) : bool := match a with AOk => true | _ => false end.
+
+(* `later` = what each successive connect attempt meets, in order *)
+Definition connect_with_retry (later : list conn_attempt) : bool :=
+  existsb attempt_ok (firstn retry_budget later).
+
+(* None = a ServerConnection was obtained *)
+Definition connect_or_start (first : conn_attempt) (rep : startup_report) (later : list conn_attempt)
+  : option start_error :=
+  match first with
+  | AOk => None
+  | AOtherErr => Some EConnectFailed
+  | ARefused =>
+      match rep with
+      | SOk true | SAddrInUse => if connect_with_retry later then None else Some ERetryExhausted
+      | SOk false => Some EWrongAddr
+      | STimedOut => Some EStartTimedOut
+      | SErr => Some EStartFailed
+      | SSpawnErr => Some ESpawnFailed
+      end
+  end.
+
+(* the whole `sccache <compiler> ...` process: obtain a connection, then do_compile on it *)
+Inductive process_outcome :=
+| PStartError (e : start_error)        (* Err out of run_command before any request: exit 2 *)
+| PCompile (o : outcome).
+
+Definition compile_process (opq : N -> list N -> bool) (ignore_io : bool)
+  (first : conn_attempt) (rep : startup_report) (later : list conn_attempt)
+  (bytes : list N) (e : ending) : process_outcome :=
+  match connect_or_start first rep later with
+  | Some err => PStartError err
+  | None => PCompile (client opq ignore_io bytes e)
+  end.
+
+Definition process_exit (p : process_outcome) (local : N) : N :=
+  match p with
+  | PStartError _ => 2
+  | PCompile o => exit_code o local
+  end.
+
+(* ================================================================================================
+   server.rs `SccacheService::compiler_info`: the map of detected compilers is SHARED by all
+   connections.  A request names a compiler path; the probe that detects the compiler runs with the
+   REQUEST's environment / working directory, so whether it succeeds is a fact about the request
+   (`q_probe_ok`), not about the path.  The map records `Some(entry)` (with the executable's mtime) after
+   a successful probe and `None` after a failed one; a lookup is a hit only for `Some(entry)` with the
+   current mtime — `None` entries are never answered from, the probe runs again.                   *)
+
+Record compile_req := {
+  q_path : list N;
+  q_mtime : N;            (* mtime of the executable when the request arrives *)
+  q_probe_ok : bool;      (* does detection succeed when run on behalf of THIS request *)
+}.
+
+Definition compilers := list (list N * option N).       (* path -> None | Some mtime *)
+
+Fixpoint path_eqb (a b : list N) : bool :=
+  match a, b with
+  | [], [] => true
+  | x :: a', y :: b' => (x =? y) && path_eqb a' b'
+  | _, _ => false
+  end.
+
+Fixpoint cm_get (m : compilers) (p : list N) : option (option N) :=
+  match m with
+  | [] => None
+  | (k, v) :: r => if path_eqb k p then Some v else cm_get r p
+  end.
+
+Definition cm_set (m : compilers) (p : list N) (v : option N) : compilers := (p, v) :: m.
+
+(* true = the request is served (CompileStarted / UnhandledCompile follow from parse_arguments);
+   false = Response::Compile(UnsupportedCompiler) *)
+Definition compiler_info (m : compilers) (q : compile_req) : bool * compilers :=
+  let probe := if q_probe_ok q then (true, cm_set m (q_path q) (Some (q_mtime q)))
+               else (false, cm_set m (q_path q) None) in
+  match cm_get m (q_path q) with
+  | Some (Some mt) => if mt =? q_mtime q then (true, m) else probe
+  | _ => probe
+  end.
+
+(* requests from any connections, in the order the service handles them *)
+Fixpoint serve_all (m : compilers) (qs : list compile_req) : list bool * compilers :=
+  match qs with
+  | [] => ([], m)
+  | q :: r => let '(a, m1) := compiler_info m q in
+              let '(as_, m2) := serve_all m1 r in (a :: as_, m2)
+  end.
